@@ -103,6 +103,65 @@ theorem readLiteral_plain (s : String) (v : LiteralValue) (rest : List Token)
   simp only [readLiteral, peekOrErr_cons, FR.bind_ok, hp, if_true, nextTextOrErr_text, hv]
   rfl
 
+/-! ### `read_string_literal` -/
+
+/-- the loop over any tokens none of which is the delimiter: every token is kept, separator or
+    not, with `gap` blanks before the first and one blank before each of the others -/
+theorem stringLoop_tokens (delim : Char) (ws : List Token) (hws : ∀ t ∈ ws, t.eqSep delim = false)
+    (gap : Nat) (rest : List Token) :
+    stringLoop delim (ws ++ .sep delim :: rest) gap =
+      .ok (if ws.isEmpty then [] else List.replicate gap ' ' ++ litText ws, rest) := by
+  induction ws generalizing gap with
+  | nil => simp [stringLoop]
+  | cons t tl ih =>
+    have ht : t.eqSep delim = false := hws t (by simp)
+    have htl : ∀ x ∈ tl, x.eqSep delim = false := fun x hx => hws x (by simp [hx])
+    simp only [List.cons_append, stringLoop, ht, Bool.false_eq_true, if_false, ih htl 1, FR.bind_ok,
+      List.isEmpty_cons]
+    cases tl with
+    | nil => simp [litText]
+    | cons u tl' => simp [litText]
+
+theorem readStringLiteral_tokens' (delim : Char) (ws : List Token)
+    (hws : ∀ t ∈ ws, t.eqSep delim = false) (rest : List Token) :
+    readStringLiteral delim (.sep delim :: (ws ++ .sep delim :: rest)) =
+      .ok (delim :: (litText ws ++ [delim]), rest) := by
+  have hp : ∃ t, peekOrErr (ws ++ .sep delim :: rest) = .ok t := by
+    cases ws with
+    | nil => exact ⟨_, rfl⟩
+    | cons t tl => exact ⟨_, rfl⟩
+  obtain ⟨t0, hp⟩ := hp
+  simp only [readStringLiteral, nextSepEq_cons, eqSep_sep, beq_self_eq_true, if_true, FR.bind_ok,
+    hp, stringLoop_tokens delim ws hws 0 rest]
+  cases ws with
+  | nil => rfl
+  | cons t tl => simp
+
+/-- **string literals of any number of tokens**: the opening delimiter, any tokens (words and
+    separator characters other than the delimiter — none at all for the empty literal, a
+    separator in first position included), the closing delimiter: the literal is the tokens
+    joined by single blanks, between the delimiters -/
+theorem readStringLiteral_tokens (delim : Char) (ws : List Token)
+    (hws : ∀ t ∈ ws, t.eqSep delim = false) (rest : List Token) :
+    readStringLiteral delim (printStringTokens delim ws ++ rest) =
+      .ok (delim :: (litText ws ++ [delim]), rest) := by
+  have := readStringLiteral_tokens' delim ws hws rest
+  simpa [printStringTokens] using this
+
+theorem printWord_noDelim (delim : Char) (cs : List Char) :
+    ∀ t ∈ printWord cs, t.eqSep delim = false := by
+  intro t ht
+  unfold printWord at ht
+  split at ht
+  · simp at ht
+  · simp only [List.mem_singleton] at ht; subst ht; rfl
+
+theorem litText_printWord (cs : List Char) : litText (printWord cs) = cs := by
+  unfold printWord
+  split
+  · rename_i h; simp only [List.isEmpty_iff] at h; subst h; rfl
+  · simp [litText, Token.chars]
+
 /-- DEFAULT / value literals: what the printer writes is read back -/
 theorem readLiteral_print (v : LiteralValue) (hw : litWf v = true) (rest : List Token) :
     readLiteral (printLit v ++ rest) = .ok (.lit v, rest) := by
@@ -115,13 +174,17 @@ theorem readLiteral_print (v : LiteralValue) (hw : litWf v = true) (rest : List 
     exact readLiteral_plain (toString i) _ rest (by rw [looksLikeInt_toString]; simp)
       (tryFromAsnStr_int i (by simpa [litWf] using hw))
   | string s =>
-    have := tryFromAsnStr_string s
-    simp [printLit, readLiteral, readStringLiteral, stringLoop, this]
+    have h := readStringLiteral_tokens' '"' (printWord s.toList) (printWord_noDelim _ _) rest
+    rw [litText_printWord] at h
+    simp [printLit, readLiteral, h, tryFromAsnStr_string s]
   | octetString bs =>
-    simp only [litWf, Bool.and_eq_true, Bool.not_eq_true', List.isEmpty_eq_false_iff] at hw
-    have := tryFromAsnStr_hex bs hw.2
-    simp [printLit, readLiteral, readStringLiteral, stringLoop, readHexOrBitStringLiteral,
-      this, show eqIC "H" "H" = true by decide]
+    simp only [litWf] at hw
+    have h := readStringLiteral_tokens' '\'' (printWord (hexOfBytes bs)) (printWord_noDelim _ _)
+      (.text "H" :: rest)
+    rw [litText_printWord] at h
+    have := tryFromAsnStr_hex bs hw
+    simp [printLit, readLiteral, readHexOrBitStringLiteral, h, this,
+      show eqIC "H" "H" = true by decide]
   | enumeratedVariant t x => simp [litWf] at hw
 
 end Asn1Verif.Front.Syn
